@@ -107,6 +107,22 @@ SPECS += [
          props=["C19"], **SCHED_COMMON),
 ]
 
+INTEG_COMMON = dict(
+    path="adapters/time_integration.py", group="Integ", ret="Rat",
+    calls={"self._unpack": "id", "interpolate": {"lean": "interpolate", "args": [0, 1, 2], "ret": "Rat"}},
+    consts={"tools.UNITS.Unit('s')": ("(1 : Rat)", "Rat")},
+    locals={"sum_value": "Opt[Rat]"}, props=["C12"],
+)
+
+SPECS += [
+    # ---- adapters/time_integration.py (C12) ---------------------------------------------------------------------
+    dict(lean="AvgOverTime__interpolate", qual="AvgOverTime._interpolate",
+         fields={"data": RDATA, "_prev_time": "Int", "_step": "Opt[Rat]"}, params={"time": "Int"}, **INTEG_COMMON),
+    dict(lean="SumOverTime__interpolate", qual="SumOverTime._interpolate",
+         fields={"data": RDATA, "_prev_time": "Int", "_step": "Opt[Rat]", "_per_time": "Bool", "_initial_interval": "Int"},
+         params={"time": "Int"}, **INTEG_COMMON),
+]
+
 
 def by_group():
     g = {}
